@@ -438,3 +438,7 @@ def run(ctx):
     r3_error_discipline(ctx)
     r4_brackets(ctx)
     r5_raii(ctx)
+    # (R5) a module deactivated by a panic runs no further handler or task: every handler invocation of handle_message / async_wakeup is
+    # dominated by active == true (shared with C09.R1; a panicked module keeps its runtime and timers, only this guard keeps it inert)
+    from .C09 import r1_inert_handlers
+    r1_inert_handlers(ctx, rule='C13.R5')
